@@ -942,3 +942,35 @@ DESIGN_REF = "DESIGN.md section 4 C11"
 LEVEL_NOTE = ("Trusted: Coq kernel+VM; CPython's attribute lookup (an inherited C slot sees the same fields) — validated by the mro-table stream and by comparing every accessor with "
               "the native object; Model/DropIn.v's model of _datetimemodule.c comparison/hash/subtraction (validated on every binary case); strings are compared, not modelled.")
 TECHNIQUE = "generated override table + Coq dispatch model (vm_compute reflection, lia over zone tables) + differential testing against native datetime objects"
+
+
+# ---- specification side tied to CPython's own source (appended) ----
+# coq/Gen/StdlibDT.v is the machine translation of CPython's pure-Python datetime arithmetic (_pydatetime.py: timedelta.__new__ [integer
+# path] / __add__ / __sub__ / __neg__, _check_time_fields, _check_utc_offset, datetime.__new__ / utcoffset / __sub__ / _cmp / __add__ / replace,
+# date.toordinal / __add__ / __sub__), regenerated on every run from the file the staged interpreter imports (tools/vlib/gens/g14_stdlib_dt.py);
+# Props/C11.v spec_is_stdlib_* prove the native semantics of Model/DropIn.v, Spec/NativeDT.v and Spec/TdFloat.v equal to it.
+_NSPEC_NEW = (
+    "the NATIVE semantics used as specification (Model/DropIn.v native_utcoffset / native_sub / cmp_key / native_ord / native_eq, Spec/NativeDT.v "
+    "ndt_add_td / ndt_replace_ymd, Spec/TdFloat.v td_norm / td_of_int_args) is PROVED equal to the translation of CPython's pure-Python reference "
+    "implementation _pydatetime.py (Gen/StdlibDT.v, regenerated from the staged interpreter's stdlib on every run; theorems "
+    "spec_is_stdlib_timedelta_new/_add/_sub/_neg, spec_is_stdlib_datetime_utcoffset/_sub/_cmp/_eq/_add/_add_ndt/_replace, spec_is_stdlib_date_add_ndt/"
+    "_date_sub, spec_is_stdlib_field_order). Each function is partially evaluated under stated assumptions: operand types as in the call (other is a "
+    "datetime / a timedelta), timedelta.__new__ on INTEGER arguments only (the float branches are out of scope; the float literals of the integer path "
+    "are integral and are represented by the integers they equal), datetime.__new__ not in its pickle form, replace() called with year/month/day, "
+    "self an exact datetime/date (type(self)(...) is the native constructor - a subclass such as pendulum's overrides it, which is what Part 2 of "
+    "DropIn.v models). NOT translated and still hand-written: astimezone (native_astimezone = Model/TzConvert.v in_tz; its pieces self - offset, "
+    "replace(tzinfo=tz) and tz.fromutc are covered by spec_is_stdlib_datetime_sub/_add and C02's spec_is_stdlib_fromutc, their composition is not), "
+    "datetime.__hash__, timetuple/utctimetuple/timestamp/isoformat/date()/time()/timetz(), time.__new__ / combine / fromordinal (the result of "
+    "dt + timedelta is built from the translated _ord2ymd with fold = 0), the object model coq/Model/StdlibDTObj.v (slots as record fields, identity "
+    "of tzinfo objects as a tag, a tzinfo as its utcoffset function, equality/order/truth of timedeltas, the range test of _check_utc_offset, "
+    "_cmp on tuples, replace(fold=not fold)). What remains trusted on the spec side: the C accelerator _datetime (what `datetime` actually is) "
+    "agrees with _pydatetime.py - still covered by the oracle/correspondence streams of this property")
+TRUSTED = [t for t in TRUSTED] + [_NSPEC_NEW]
+LEVEL_NOTE = (LEVEL_NOTE + " The native subtraction / comparison / equality (PEP 495 exception) / addition / replace / utcoffset / timedelta "
+              "normalisation rules of the specification side are no longer only hand-written from the documentation: they are proved equal "
+              "(spec_is_stdlib_*) to the translation of CPython's _pydatetime.py, regenerated from the staged interpreter's standard library on every "
+              "run; astimezone's composition, __hash__ and the formatting accessors remain hand-written; what remains trusted there is that the C "
+              "accelerator _datetime agrees with _pydatetime.py (covered by the oracle streams).")
+LEVEL_TEXT = (LEVEL_TEXT + " The native datetime rules the specification uses (aware subtraction and comparison, __eq__ with the PEP 495 exception, "
+              "dt + timedelta resetting fold, replace, timedelta normalisation with its OverflowError bound) are proved equal to the translation of "
+              "CPython's own pure-Python datetime source.")
